@@ -81,6 +81,12 @@ theorem accepted_buffers_sufficient (b : Builder) (ref fb : CostMap) (limit : In
   obtain ⟨p, c, pc, cc, hp, hc, hidx, hj, hpc, hcc, _, hr⟩ := buffer_map_consistent b ref fb limit st hu h ci hci e he
   exact ⟨p, c, pc, cc, hp, hc, hidx, hj, hpc, hcc, rollingBufferShape_sufficient _ _ _ _ _ _ _ _ _ hr⟩
 
+/-- the model's inner loop never runs out of fuel (`err:fuel` is not a Python outcome): each iteration moves to an operation of
+    the builder with a larger index, and the fuel is the number of operations + 1 -/
+theorem build_cascades_never_out_of_fuel (bm0 : BufferMap) (b : Builder) (ref fb : CostMap) (limit : Int) :
+    buildCascadesFrom bm0 b ref fb limit ≠ .error .fuel :=
+  fun h => buildCascadesFrom_fuel bm0 b ref fb limit _ h rfl
+
 /-! ### The invariant a longer-lived cache breaks
 
 Two convolutions 32×32, 8 → 32 → 8 channels.  `refA`: 2-row stripes (consumer reads 4 rows), `refB`: 8-row stripes (consumer
